@@ -271,9 +271,10 @@ def notifyMsg {V : Type} [MergeVal V] (cfg : Cfg) (now : Int) (nd : Node V) (m :
 def localState {V : Type} (nd : Node V) : List (Msg V) :=
   nd.store.map fun (k, e) => { key := k, val := e.val, deleted := e.deleted, updateTime := e.updateTime }
 
-/-- `MergeRemoteState` -/
+/-- `MergeRemoteState`: every pair of the full-state message goes through the same validation and merge
+as a gossiped message (a pair with an empty key is invalid and skipped; the others are merged in order) -/
 def mergeRemoteState {V : Type} [MergeVal V] (cfg : Cfg) (now : Int) (nd : Node V) (ms : List (Msg V)) : Node V :=
-  ms.foldl (deliver cfg now) nd
+  ms.foldl (notifyMsg cfg now) nd
 
 def Bcast.msg {V : Type} (b : Bcast V) : Msg V :=
   { key := b.key, val := b.change, deleted := b.deleted, updateTime := b.updateTime }
@@ -326,6 +327,11 @@ def receive {V R : Type} [MergeVal V] (dec : R → Option (Msg V)) (cfg : Cfg) (
   match dec raw with
   | none => nd
   | some m => notifyMsg cfg now nd m
+
+/-- `MergeRemoteState` on raw bytes: the stream is a sequence of length-prefixed pairs, each decoded and
+validated on its own (`dec` as in `receive`); a pair that does not decode or has an empty key is skipped -/
+def receiveState {V R : Type} [MergeVal V] (dec : R → Option (Msg V)) (cfg : Cfg) (now : Int) (nd : Node V) (raws : List R) : Node V :=
+  raws.foldl (receive dec cfg now) nd
 
 /-! ## cluster: nodes + messages in flight + one global clock (seconds) -/
 
